@@ -341,7 +341,7 @@ def check_percolation(path, max_nodes, label, free_inputs=False):
                 fails.append(f"{label}: {nm} is not a free input of the variant")
     else:
         sd.expand_bfs(size_limit=max_nodes)
-        spaces = [sd.node_data(i)["space"] for i in sd.node_ids()][:max_nodes]
+        spaces = [sd.node_data(i)["space"] for i in sd.node_ids()][:max_nodes] + [{}]
     for S in spaces:
         for rc in (True, False):
             bn = percolate_network(sd.network, S, sd.symbolic, remove_constants=rc)
@@ -372,6 +372,10 @@ def check_percolation(path, max_nodes, label, free_inputs=False):
                 uf = bn.get_update_function(nm)
                 if uf is None and nm not in inputs:
                     fails.append(f"{label}: variable {nm} lost its update function")
+                if uf is not None:
+                    reads = set(TOK.findall(str(uf.as_expression()))) & set(Sp)
+                    if reads:
+                        fails.append(f"{label}: percolated function of free variable {nm} still reads fixed variable(s) {sorted(reads)[:3]} (space {dict(list(S.items())[:4])})")
                 g = parse_expr(str(uf.as_expression()) if uf is not None else nm, var)
                 s.push()
                 s.add(z3.Xor(F[nm], g))
@@ -392,6 +396,13 @@ def check_percolation(path, max_nodes, label, free_inputs=False):
                             fails.append(f"{label}: input {nm} fixed by the space {dict(list(S.items())[:5])} is still a free parameter (remove_constants=False)")
                             continue
                         g = parse_expr(str(uf.as_expression()), var)
+                        # an encoding over exactly the free variables: a kept fixed variable is a constant of the result
+                        s0 = z3.Solver()
+                        s0.set("timeout", 60000)
+                        s0.add(g != bool(Sp[nm]))
+                        q += 1
+                        if s0.check() != z3.unsat:
+                            fails.append(f"{label}: kept fixed variable {nm} is not the constant {Sp[nm]} of the percolated network (space {dict(list(S.items())[:4])})")
                         s.push()
                         s.add(g != bool(Sp[nm]))
                         # the spaces used here are trap spaces: a kept constant reproduces the value fixed by the space
